@@ -495,10 +495,12 @@ def check_case(case, ctx):
                         nsys = max(abs(v[i + 1]) if isinstance(v[i + 1], float) else 0.0, n)
                         e = max(e, 1.0 if n < 1e-30 else min(1.0, 5.0 * math.sqrt(nsys * 1e-25) / n))
                         if not poised and o[3][0] in ("C", "S") and state != "i_soln":
-                            # un-poised rows: the electron balance is the ~1e-14 mol/kgw rounding difference of total H and
-                            # O; that many electrons can reduce the same amount of C(4) / S(6)
+                            # un-poised rows: the electron balance is the difference of total H and total O, which the
+                            # solver accepts with a residual of convergence_tolerance x (H + 2 O) = 1e-13 x 170 mol/kgw
+                            # (model.cpp residuals(), MH / MH2O); that many electrons (x3 margin) can reduce the same
+                            # amount of C(4) / S(6) (observed: 4e-12 mol/kgw of S(6) reduced in one view only)
                             w = abs(v[iw]) if isinstance(v[iw], float) else 1.0
-                            e = max(e, 1.0 if n < 1e-30 else min(1.0, 1e-13 * w / n))
+                            e = max(e, 1.0 if n < 1e-30 else min(1.0, 5e-11 * w / n))
                 e = max(e, carry.get(o[3][0], 0.0))
                 eps_of[o[3][0]] = e
                 if state != "i_soln":
@@ -541,6 +543,11 @@ def check_case(case, ctx):
                 skipped_noise += 1
                 continue
             if gas_gone and expr.startswith(("PR_P", "PR_PHI", "GAS_P", "GAS_VM")):
+                continue
+            if state == "i_gas" and not expr.startswith("GAS"):
+                # the result of an initial gas-phase calculation is the gas composition; the solution values punched with
+                # that row are those of an internal, re-balanced copy of the solution (e.g. Cl 0.02 -> 0.0238) that is
+                # converged to ~1e-9 only
                 continue
             if expr == "SC" and abs(va[icb]) / max(kgw, 1e-300) > 0.2 * mu:
                 # the conductivity model averages charge and mobility over "the cations" and "the anions"; in a water
